@@ -18,7 +18,10 @@ subprocess.run(["git", "-C", wt, "apply", os.path.join(os.path.abspath(src), "pa
 env = dict(os.environ, VERIF_REPO=wt, VERIF_NOGEN="1")
 t = subprocess.run(["timeout", "1500", "python3", os.path.join(V, "tools/try_explore.py"), prop, "-", "1"], env=env,
                    stdout=subprocess.PIPE, stderr=subprocess.STDOUT, text=True).stdout
-dyn = "PROPFAIL" in t or "DISAGREE" in t
+# a failure that only reproduces a recorded known finding of the unchanged tree is no detection
+known = [f["signature"] for f in json.load(open(os.path.join(V, "known_findings.json")))["findings"]]
+fails = [l for l in t.splitlines() if l.startswith("PROPFAIL") or l.startswith("DISAGREE") or l.startswith("MISMATCH")]
+dyn = any(not any(("sig=" + k) in l.split(" [")[0] for k in known) for l in fails)
 # static part: regenerate the facts from the worktree into a private copy of the Coq development
 tmp = tempfile.mkdtemp(prefix="kswt.", dir="/var/tmp")
 stat, statmsg = False, ""
